@@ -396,7 +396,7 @@ carquet_status_t carquet_batch_reader_next(
         bool use_zero_copy = col_reader->page_loaded &&
                              col_reader->decoded_ownership == CARQUET_DATA_VIEW &&
                              col_reader->page_values_read == 0 &&
-                             col_reader->page_num_values <= (int32_t)rows_to_read &&
+                             (int64_t)col_reader->page_num_values == rows_to_read &&
                              max_def == 0;
 
         if (use_zero_copy) {
